@@ -106,6 +106,7 @@ THEOREMS = [
     "bundle09_install_complete", "directive_file_nonl_witness", "patch_date_roundtrip", "directive_fields_roundtrip",
     "directive_fields_roundtrip_file", "directive_epoch_timezone_witness", "directive_no_testament_witness",
     "tamper_detected_general", "tamper_insert_detected", "tamper_delete_detected", "tamper_ws_swap_detected",
+    "prop_line_roundtrip", "prop_line_roundtrip_valid", "prop_lines_roundtrip",
 ]
 RUST = ("patch-py",)      # format_patch_date / parse_patch_date of the directive's timestamp
 RULE = ("scenario = (seed, index, repository format): a generated history of 5-8 revisions committed through a working "
@@ -1565,6 +1566,49 @@ def directive_case(kw, out, via_file):
     return lines
 
 
+def prop_cases(rng, out, n):
+    """revision property lines of the 0.8/0.9 bundle footer: `RevisionInfo.from_revision` writes
+    ': '.join((key, value)), `RevisionInfo.as_revision` splits at the first ': ' (Model/C40 section 4).
+    T2 on raw lines; oracle = round trip of (key, value) for keys without blank/newline and ANY value"""
+    from breezy.bzr.bundle.bundle_data import RevisionInfo
+    atoms = ["a", "b", ":", ": ", " ", "::", "\u00e9", "k-1", "x:y", ":", " :", "\n"]
+
+    def parse(lines):
+        info = RevisionInfo(b"rid")
+        info.committer, info.timestamp, info.timezone = "c", 1.0, 0
+        info.inventory_sha1, info.message, info.parent_ids = b"x", ["m"], []
+        info.properties = lines
+        return dict(info.as_revision().properties)
+
+    for i in range(n):
+        if i % 2 == 0:
+            # a (key, value) pair through the writer's join: the oracle
+            key = "".join(rng.choice(["a", "b", "k-1", "\u00e9", ":", "x:y", "_"]) for _ in range(rng.randrange(1, 4)))
+            val = "".join(rng.choice(atoms[:-1]) for _ in range(rng.randrange(0, 6)))
+            line = ": ".join((key, val))
+            case = dict(prop=[key, val])
+            try:
+                back = parse([line])
+            except Exception as e:
+                back = _exc_kind(e)
+            if back != {key: val}:
+                out["viol"].append((case, "revision property %r = %r written as %r to a 0.9 bundle footer is read back as %r"
+                                    % (key, val, line, back), None))
+            out["count"]["prop-pair:%s" % ("sep-in-value" if ": " in val else "plain")] += 1
+        else:
+            line = "".join(rng.choice(atoms) for _ in range(rng.randrange(0, 6)))
+            case = dict(prop_line=line)
+        try:
+            d = parse([line])
+            (k, v), = d.items()
+            impl = "ok k%s v%s" % (hexo(k.encode("utf-8")), hexo(v.encode("utf-8")))
+        except ValueError:
+            impl = "E:ValueError"
+        out["cases"].append((case, ": " in line))
+        out["count"]["prop-line:%s" % impl.split(" ")[0]] += 1
+        out["t2"].append((case, "prop x%s" % line.encode("utf-8").hex(), impl))
+
+
 def pdate_cases(rng, out, n):
     """format_patch_date / parse_patch_date (crates/patch): T2 on both directions, oracle = round trip on the
     domain of patch_date_roundtrip; canonical-shape strings with out-of-range fields on error kind"""
@@ -1847,6 +1891,7 @@ def run(ctx, nscen=None, ndir=None):
         if lines is not None and rng.random() < 0.12:
             damaged_case(rng, lines, good, out)
     pdate_cases(rng, out, ctx.pick(300, 3000))
+    prop_cases(rng, out, ctx.pick(400, 4000))
     ctx.extra["model_variants"] = {"_from_lines without testament_sha1": testament_variant()}
     _merge_out(ctx, dict(out, count=dict(out["count"])), t2)
     # ---- 3. histories, bundles, merges, from_objects ------------------------------------------
@@ -1871,6 +1916,24 @@ def replay(ctx, case):
         b = case["norm"].encode()
         m = ctx.model(["norm %s" % hexo(b)])[0]
         return dict(case=case, impl=hexo(norm_py(b)), model=m, agree=m == hexo(norm_py(b)))
+    if "prop" in case or "prop_line" in case:
+        from breezy.bzr.bundle.bundle_data import RevisionInfo
+        line = ": ".join(case["prop"]) if "prop" in case else case["prop_line"]
+        info = RevisionInfo(b"rid")
+        info.committer, info.timestamp, info.timezone = "c", 1.0, 0
+        info.inventory_sha1, info.message, info.parent_ids = b"x", ["m"], []
+        info.properties = [line]
+        try:
+            d = dict(info.as_revision().properties)
+            (k, v), = d.items()
+            impl = "ok k%s v%s" % (hexo(k.encode("utf-8")), hexo(v.encode("utf-8")))
+        except ValueError:
+            d, impl = "E:ValueError", "E:ValueError"
+        if "prop" in case and d != {case["prop"][0]: case["prop"][1]}:
+            ctx.violation(case, "revision property %r = %r written as %r to a 0.9 bundle footer is read back as %r"
+                          % (case["prop"][0], case["prop"][1], line, d))
+        m = ctx.model(["prop x%s" % line.encode("utf-8").hex()])[0] if ctx.model_available else None
+        return dict(case=case, impl=impl, model=m, agree=m == impl)
     if "pdate" in case or "pdate_str" in case:
         from breezy._patch_rs import format_patch_date, parse_patch_date
         try:
